@@ -14,7 +14,7 @@
 (* The finished model is emitted with the values the specification         *)
 (* predicts at three states/times for every observable of C01 and C13.     *)
 (***************************************************************************)
-EXTENDS Integers, Sequences, FiniteSets, TLC, Json, FnLib
+EXTENDS Integers, Sequences, FiniteSets, TLC, Json, FnLib, DualLib
 
 CONSTANTS
     MaxVars,        \* 1..MaxVars plain variables x, y, z
@@ -24,9 +24,12 @@ CONSTANTS
     UseData,        \* TRUE: a data set "dat" (only usable through dsum)
     ForwardRefs,    \* TRUE: arguments may name any component of the final model (cycles occur);
                     \* FALSE: only components filled earlier, slots taken in a rotated/reversed order
+    WithJac,        \* TRUE: also predict the exact Jacobian of the right-hand side (C12)
     EmitOn
 
 M == INSTANCE MxlModel WITH Apply <- FApply, VAdd <- FAdd, VMul <- FMul, VZero <- 0
+\* the same semantics over dual numbers <<value, derivative>>
+MD == INSTANCE MxlModel WITH Apply <- DApply, VAdd <- DAdd, VMul <- DMul, VZero <- DConst(0)
 
 VARIABLES c, slots, i, cur
 
@@ -166,8 +169,15 @@ Points ==
       [y |-> [v \in M!VarSet(c) |-> YAlt1[CHOOSE j \in DOMAIN c.vars : c.vars[j] = v]], t |-> 2, default |-> FALSE],
       [y |-> [v \in M!VarSet(c) |-> YAlt2[CHOOSE j \in DOMAIN c.vars : c.vars[j] = v]], t |-> 5, default |-> FALSE]>>
 
+\* exact Jacobian: entry [i][j] = d rhs_i / d var_j at (y, t), by seeding variable j with derivative 1
+JacAt(cc, y, t) ==
+    LET L == Lift(cc)
+        col(j) == MD!Rhs(L, [v \in M!VarSet(cc) |-> Dual(y[v], IF v = cc.vars[j] THEN 1 ELSE 0)], DConst(t))
+    IN [row \in DOMAIN cc.vars |-> [j \in DOMAIN cc.vars |-> col(j)[row][2]]]
+
 PredictC(cc, p) ==
     [y |-> p.y, t |-> p.t, default |-> p.default,
+     jac    |-> IF WithJac THEN JacAt(cc, p.y, p.t) ELSE <<>>,
      args   |-> [n \in M!Reported(cc) |-> M!ArgsAt(cc, p.y, p.t)[n]],
      rhs    |-> M!Rhs(cc, p.y, p.t),
      fluxes |-> M!Fluxes(cc, p.y, p.t),
@@ -215,6 +225,24 @@ OrderInvariant ==
                  r == M!Redeclare(c, Rev)
              IN /\ M!ArgsAt(r, p.y, p.t) = M!ArgsAt(c, p.y, p.t)
                 /\ \A m \in DOMAIN c.vars : M!Rhs(r, p.y, p.t)[m] = M!Rhs(c, p.y, p.t)[Rev[m]]
+
+\* the dual-number evaluation agrees with the plain one on values, and for models built from affine
+\* functions with numeric coefficients the Jacobian equals the exact forward difference
+AffineFns == {"one", "two", "id", "neg", "dbl", "inc", "add", "sub"}
+AllAffine ==
+    /\ \A d \in DOMAIN c.der : c.der[d].fn \in AffineFns
+    /\ \A r \in DOMAIN c.rxn : c.rxn[r].fn \in AffineFns /\ \A v \in DOMAIN c.rxn[r].st : c.rxn[r].st[v].k = "num"
+    /\ DOMAIN c.sur = {}
+JacIsDerivative ==
+    (WF /\ WithJac) => \A k \in DOMAIN Points :
+        LET p == Points[k]
+            L == Lift(c)
+            plain == MD!Rhs(L, [v \in M!VarSet(c) |-> Dual(p.y[v], 0)], DConst(p.t))
+        IN /\ \A row \in DOMAIN c.vars : plain[row][1] = M!Rhs(c, p.y, p.t)[row]
+           /\ AllAffine => \A row, j \in DOMAIN c.vars :
+                  JacAt(c, p.y, p.t)[row][j] =
+                     M!Rhs(c, [v \in M!VarSet(c) |-> IF v = c.vars[j] THEN p.y[v] + 1 ELSE p.y[v]], p.t)[row]
+                     - M!Rhs(c, p.y, p.t)[row]
 
 \* untouched variables have derivative 0
 UntouchedZero ==
